@@ -163,7 +163,8 @@ def sem_success_rule(ck, key, fname, outs, slot, S, is_success):
           sample={"fn": fname, "success_cases": n_s, "failing_cases": n_f})
 
 
-def check_group(ck, m, grp, label, impl_expect):
+def check_group(ck, m, grp, label, impl_expect, fwd_expect=None, n_fwd=None):
+    n_fwd = n_fwd if n_fwd is not None else [0]
     key0 = "%s/%s" % (label, grp.base["path"])
     bf = model.adt_fields(grp.base)
     opt = [n for n, f in bf if is_opt(f["ty"])]
@@ -422,6 +423,24 @@ def check_group(ck, m, grp, label, impl_expect):
         if want is not None:
             ck.ob("G6-fill-table-enables-listed", key, sorted(enabled) == sorted(w.lower() for w in want),
                   "fill_table for %s enables %s, cglue_impl_group! listed %s" % (ty, sorted(enabled), sorted(want)), sample={"type": ty, "enabled": sorted(enabled)})
+    # the forward list of cglue_impl_group! (what a forwarded `&mut T` provides) is independent of the owned one
+    for f in m.facts.fns(m.unit):
+        if not ((f.get("impl_trait") or "").endswith("::%sFwdVtableFiller" % grp.name) and f["name"] == "fill_fwd_table"):
+            continue
+        ty = f.get("impl_self", "")
+        wantf = (fwd_expect or {}).get(ty.rsplit("::", 1)[-1])
+        if wantf is None:
+            continue
+        o = mir.Body(f).origin_local(0)
+        enabled = []
+        while o[0] == "call" and "::enable_" in o[1]:
+            enabled.append(o[1].rsplit("::enable_", 1)[1])
+            o = o[2][0]
+        key = "%s/fill_fwd_table/%s" % (key0, ty)
+        n_fwd[0] += 1
+        ck.ob("G6-fill-table-shape", key, o == ("arg", 1) and len(set(enabled)) == len(enabled), "fill_fwd_table for %s is not a chain of distinct enable_* calls on its argument" % ty)
+        ck.ob("G6-fill-table-enables-listed", key, sorted(enabled) == sorted(w.lower() for w in wantf),
+              "fill_fwd_table for %s enables %s, the forward list of cglue_impl_group! names %s" % (ty, sorted(enabled), sorted(wantf)), sample={"type": ty, "enabled": sorted(enabled)})
     # From<Container> for Group takes every slot from the filler's table
     for f in m.facts.fns(m.unit):
         if f.get("impl_trait") == "std::convert::From" and f.get("impl_self_adt") == grp.base["path"] and f["inputs"] and f["inputs"][0].startswith(grp.container["path"]):
@@ -462,15 +481,19 @@ def run(tier):
     ck.unit("corpus-%s" % tier)
     m = model.Model(cf)
     impl_expect = {}
+    fwd_expect, n_fwd = {}, [0]
     for it in exp["items"]:
         if it["kind"] == "group":
             for im in it["impls"]:
                 impl_expect[im["type"]] = im["enabled"]
+                if "fwd_enabled" in im:
+                    fwd_expect[im["type"]] = im["fwd_enabled"]
     tot_ops = tot_fill = tot_sub = 0
     for grp in m.groups:
-        a, b, c = check_group(ck, m, grp, "corpus", impl_expect)
+        a, b, c = check_group(ck, m, grp, "corpus", impl_expect, fwd_expect, n_fwd)
         tot_ops, tot_fill, tot_sub = tot_ops + a, tot_fill + b, tot_sub + c
     ck.floor("corpus groups", len(m.groups), 5)
+    ck.floor("forwarded fill_table implementations with a stated forward list", n_fwd[0], 1)
     ck.floor("cast operations (subset x op) in corpus", tot_ops, 40 if tier == "quick" else 150)
     ck.floor("fill_table implementations in corpus", tot_fill, 12 if tier == "quick" else 35)
     # With_S layout == group layout (compiler computed), for every With variant and every probe instantiation
